@@ -75,8 +75,14 @@ AddCtrl(cc) ==
     /\ proj' = [proj EXCEPT !.ctrls = Append(@, MkCtrl(cc, Len(proj.ctrls) + 1))]
     /\ UNCHANGED <<pc, pending, visited, order, serial, fsys, valid30, valid31, exit>>
 
+\* every declared-looking type (pkg.Name with pkg one of the project's packages) a method mentions must be declared in the project
+Mentioned(mc) == (IF "sig" \in DOMAIN mc THEN {CoreType(x.type) : x \in Range(mc.sig)} ELSE {}) \cup {CoreType(r) : r \in Range(mc.ret)}
+LooksDeclared(n) == Len(n) > 3 /\ SubSeq(n, 1, 3) \in {"p1.", "p2."}
+TypesKnown(mc) == \A n \in Mentioned(mc) : LooksDeclared(n) => IsDeclared(proj, n)
+
 AddMethod(mc) ==
     /\ pc = "author" /\ proj.ctrls # <<>> /\ MethodsOfLast < MaxMethods
+    /\ TypesKnown(mc)
     /\ proj' = [proj EXCEPT !.methods = Append(@, MkMethod(proj.ctrls[Len(proj.ctrls)], mc, Len(proj.methods) + 1))]
     /\ UNCHANGED <<pc, pending, visited, order, serial, fsys, valid30, valid31, exit>>
 
@@ -183,12 +189,12 @@ SimAuthor ==
               [] go = "ctrl" -> IF Len(proj.ctrls) < MaxCtrls
                                 THEN \E cc \in One({x \in CtrlChoices : \A c \in Range(proj.ctrls) : ~(c.name = x.name /\ c.pkg = x.pkg)}) : AddCtrl(cc)
                                 ELSE Freeze
-              [] OTHER -> IF MethodsOfLast < MaxMethods THEN \E mc \in One(MethodChoices) : AddMethod(mc) ELSE Freeze
+              [] OTHER -> IF MethodsOfLast < MaxMethods THEN \E mc \in One({x \in MethodChoices : TypesKnown(x)}) : AddMethod(mc) ELSE Freeze
     \/ /\ pc = "author" /\ proj.ctrls = <<>> /\ \E cc \in One(CtrlChoices) : AddCtrl(cc)
-    \/ /\ pc = "author" /\ proj.ctrls # <<>> /\ MethodsOfLast = 0 /\ \E mc \in One(MethodChoices) : AddMethod(mc)
-SimInit == /\ proj \in {[cfg |-> RandomElement(CfgChoices), ctrls |-> <<>>, methods |-> <<>>, types |-> RandomElement(TypeChoices)]}
-           /\ pc = "author" /\ pending = {} /\ visited = <<>> /\ order = <<>> /\ serial = <<>> /\ fsys = NoFs
-           /\ valid30 = FALSE /\ valid31 = FALSE /\ exit = [code |-> 9, msg |-> ""]
+    \/ /\ pc = "author" /\ proj.ctrls # <<>> /\ MethodsOfLast = 0 /\ \E mc \in One({x \in MethodChoices : TypesKnown(x)}) : AddMethod(mc)
+\* (RandomElement inside an initial predicate would be evaluated once for the whole simulation: enumerate the initial states
+\*  instead - the simulator picks one of them at random for every walk)
+SimInit == Init
 SimSpec == SimInit /\ [][SimAuthor]_vars
 
 --------------------------------------------------------------------------
@@ -212,6 +218,7 @@ Expect(p) == [ops |-> DocumentedOps(p), security |-> OpSecurity(p), enforceOk |-
               ambiguous |-> Ambiguous(p), operations |-> ExpectedOperations(p),
               wellLinked |-> \A m \in Range(p.methods) : IsApi(m) => WellLinked(p, m),
               served |-> Served(p), handlers |-> Handlers(p),
+              components |-> ExpectedComponents(p), plainError |-> PlainErrorPresent(p), nameClash |-> NameClash(p),
               routes |-> {[name |-> m.name, wellLinked |-> WellLinked(p, m), wellLinkedAsBuilt |-> WellLinkedD(p, m, TRUE), ptag |-> m.ptag]
                              : m \in {x \in Range(p.methods) : IsApi(x)}}]
 EmitCase == pc = "config" => PrintT("CASE " \o ToJson([cfg |-> proj.cfg, ctrls |-> proj.ctrls, methods |-> proj.methods, types |-> proj.types, expect |-> Expect(proj)]))
